@@ -1115,6 +1115,11 @@ func (s *UDPSession) kcpInput(data []byte) {
 	case typeOOB:
 		// Count received OOB packet
 		atomic.AddUint64(&DefaultSnmp.OOBPackets, 1)
+		// An OOB packet names its conversation right after the FEC header; one addressed to another
+		// conversation (e.g. a previous session that used this address) must not reach our handler.
+		if binary.LittleEndian.Uint32(data[fecHeaderSizePlus2:]) != s.kcp.conv {
+			return
+		}
 		// If an OOB callback is registered, invoke it synchronously.
 		// The callback is responsible for ensuring non-blocking behavior.
 		if callback := s.callbackForOOB.Load(); callback != nil {
